@@ -23,9 +23,24 @@ func (r *ReadFS) OpenFile(path string, flag experimentalsys.Oflag, perm fs.FileM
 	default: // sys.O_RDONLY (integer zero) so we are ok!
 	}
 
+	// O_RDONLY doesn't prevent the following flags from modifying the file
+	// system, so handle them as a read-only file system does.
+	if flag&experimentalsys.O_TRUNC != 0 {
+		return nil, experimentalsys.EROFS
+	}
+	create, excl := flag&experimentalsys.O_CREAT != 0, flag&experimentalsys.O_EXCL != 0
+	if create {
+		flag &^= experimentalsys.O_CREAT | experimentalsys.O_EXCL // never create.
+	}
+
 	f, errno := r.FS.OpenFile(path, flag, perm)
-	if errno != 0 {
+	if create && errno == experimentalsys.ENOENT {
+		return nil, experimentalsys.EROFS
+	} else if errno != 0 {
 		return nil, errno
+	} else if create && excl {
+		_ = f.Close()
+		return nil, experimentalsys.EEXIST
 	}
 	return &readFile{f}, 0
 }
